@@ -24,6 +24,14 @@ def gen_ret(p_genret):
     return p_genret
 
 
+def pair(p_pair1, p_pair2):
+    return None
+
+
+def geny(p_geny):
+    yield p_geny or "value-dependent"
+
+
 class C:
     def m(self, p_m):
         return p_m
